@@ -20,13 +20,14 @@ def main():
     props = [json.loads(l) for l in open(os.path.join(HOME, "properties.jsonl"))]
     checks = []
     na = []
+    claimed = set(open(os.path.join(HOME, "tools", "claimed.txt")).read().split())
     for p in props:
         pid = p["id"]
         path = os.path.join(HOME, "checks", pid.lower() + ".py")
         mod = None
         if os.path.exists(path):
             mod = importlib.import_module("checks." + pid.lower())
-        if mod is None or not getattr(mod, "CLAIMED", True):
+        if mod is None or not getattr(mod, "CLAIMED", True) or pid not in claimed:
             na.append({"property_id": pid, "reason": NOT_APPLICABLE.get(pid, "check not yet built (work in progress); runtime monitoring applies, see DESIGN.md section 5")})
             continue
         checks.append(
